@@ -408,4 +408,45 @@ theorem vectorDot_eq {a b : Rope} (ha : a.Stored) (hb : b.Stored) (width : Int) 
     · rw [if_pos (by unfold Aligned at hal; omega), if_neg hal]
   · rw [if_neg hw, if_neg hw]; rfl
 
+/-! ### encode / decode -/
+
+theorem leNat_leBytes (n x : Nat) : leNat (leBytes n x) = x % 256 ^ n := by
+  induction n generalizing x with
+  | zero => simp [leBytes, leNat, Nat.mod_one]
+  | succ n ih =>
+    simp only [leBytes, leNat, ih]
+    rw [toNat_ofNat_lt (Nat.mod_lt _ (by omega)), Nat.pow_succ, Nat.mul_comm (256 ^ n) 256, Nat.mod_mul]
+
+/-- decoding an encoded lane gives the value back (two's complement round trip) -/
+theorem signedOf_pushLane {w : Nat} (hw : w = 4 ∨ w = 8) {x : Int} (h : LaneOK w x) :
+    signedOf (8 * w) (leNat (pushLane w x)) = x := by
+  unfold pushLane signedOf
+  rw [leNat_leBytes, ← pow256]
+  unfold LaneOK at h
+  rcases hw with hw | hw <;> subst hw <;> norm_num at h ⊢ <;> omega
+
+theorem lanes_append {w : Nat} (hw : 0 < w) (a rest : List UInt8) (ha : a.length = w) :
+    lanes w (a ++ rest) = signedOf (8 * w) (leNat a) :: lanes w rest := by
+  unfold lanes
+  rw [List.length_append, ha, Nat.add_div_left _ hw, List.range_succ_eq_map,
+    List.map_cons, List.map_map]
+  congr 1
+  · unfold laneAt; simp [ha]
+  · apply List.map_congr_left
+    intro i _
+    simp only [Function.comp, laneAt]
+    have hi : i.succ * w = w + i * w := by rw [Nat.succ_mul, Nat.add_comm]
+    rw [hi, ← List.drop_drop, List.drop_left' ha]
+
+/-- **decode ∘ encode = id** on lane values that fit the width -/
+theorem lanes_encode {w : Nat} (hw : w = 4 ∨ w = 8) (zs : List Int) (h : ∀ z ∈ zs, LaneOK w z) :
+    lanes w (encode w zs) = zs := by
+  induction zs with
+  | nil => simp [encode, lanes]
+  | cons z zs ih =>
+    have hpos : 0 < w := by omega
+    simp only [encode, List.flatMap_cons]
+    rw [lanes_append hpos _ _ (length_pushLane w z), signedOf_pushLane hw (h z (by simp))]
+    congr 1
+    exact ih (fun y hy => h y (List.mem_cons_of_mem _ hy))
 end QM.Builtins
